@@ -17,6 +17,7 @@ struct Control {
   std::vector<std::pair<int, int>> trace;  // (choice, number of options) at every real choice point
   long window_hits = 0;                    // worker broadcasts that happened while the coordinator was between unlock and wait
   long switches = 0;
+  int cpu_limit = -1;                      // >=0: sched_setaffinity to a CPU index >= this fails (fewer CPUs than workers, restricted cpuset)
 };
 Control& control();
 void reset_for_child();
